@@ -21,8 +21,23 @@ class Undecided(Exception):
 ALLOWED_MACROS = {"assert", "assume", "proof", "seq", "set", "map", "unreached", "vpanic"}
 
 
-def translate(toks, rules, log, what=""):
-    for r in rules:
+def _generic_rules():
+    """small idiom rewrites applied after every unit's own rules, so that a changed / added statement still translates"""
+    from .pattern import Rule
+    return [
+        Rule("R9", "matches ! ( $e , $$p )", "( match $e { $$p => true , _ => false } )", why="matches! -> match"),
+        Rule("R9", "matches ! ( $$e , $$p )", "( match $$e { $$p => true , _ => false } )", why="matches! -> match"),
+        Rule("R12", "vec ! [ ]", "Vec :: new ( )", why="vec![]"),
+        Rule("R1", "unsafe { $$e }", "{ $$e }", why="unsafe block marker dropped: the callee's contract carries what the caller must guarantee"),
+        Rule("R3", "log :: trace ! $a ;", "", why="logging dropped"),
+        Rule("R3", "log :: debug ! $a ;", "", why="logging dropped"),
+        Rule("R3", "log :: info ! $a ;", "", why="logging dropped"),
+        Rule("R3", "log :: warn ! $a ;", "", why="logging dropped"),
+    ]
+
+
+def translate(toks, rules, log, what="", generic=True):
+    for r in list(rules) + (_generic_rules() if generic else []):
         try:
             toks = r.apply(toks, log)
         except AnchorLost as e:
